@@ -50,7 +50,7 @@ def strategy(tier):
         "when": st.sampled_from(["after-init", "after-init", "before-init", "before-reinit", "before-cleanup-init",
                                  "after-abandoned-pilot"]),
         "direct": st.booleans(),
-        "fault_kind": st.sampled_from(["msg", "msg", "msg", "bad-kwargs", "noargs", "stopiteration", "assert", "keyerror",
+        "fault_kind": st.sampled_from(["msg", "msg", "msg", "bad-kwargs", "bad-command", "noargs", "stopiteration", "assert", "keyerror",
                                        "odd-message", "non-str-arg", "base", "bad-request", "bad-request"]),
         "drive": st.sampled_from(["start", "bounded", "step", "mixed"]),
         # (cut 10 is the replication end itself; "runx" is the exclusive bounded run)
